@@ -308,7 +308,7 @@ def r19f(ctx):
 def r19g(ctx):
     repo = ctx.repo
     ctx.rule("R19g", "keyword dispatch: build_antennas filters kwargs by each subset's signature when signatures differ and rejects positionals; "
-             "triggered strips exactly the keyword named in the TypeError and always passes require_mc_truth", expected=4, kind="N")
+             "triggered strips exactly the keyword named in the TypeError and always passes require_mc_truth; a keyword build_antennas consumes itself is removed before kwargs are passed on", expected=5, kind="N")
     fn = repo.member(D, "build_antennas")
     txt = u(fn)
     comp = [n for n in ast.walk(fn) if isinstance(n, ast.DictComp)]
@@ -316,12 +316,24 @@ def r19g(ctx):
     env_ok = "sig = inspect.signature(sub.build_antennas)" in txt and "keys = sig.parameters.keys()" in txt and "sub.build_antennas(**sub_kwargs)" in txt
     ctx.check(ok and env_ok, "R19g", f"{D}.build_antennas", "kwargs are filtered by the parameters of the subset's own build_antennas", "", key_detail="kwarg filter",
               loc=ctx.loc(MOD, fn))
-    rej = [n for n in ast.walk(fn) if isinstance(n, ast.If) and u(n.test) == "len(args) > 0" and any(isinstance(x, ast.Raise) and "TypeError" in u(x) for x in n.body)]
+    # `args` is the function's own *args tuple: its truth is the truth of its length, whichever way the test is written
+    va = fn.args.vararg.arg if fn.args.vararg else None
+    nonempty = {f"len({va}) > 0", f"len({va}) != 0", f"len({va}) >= 1", f"0 < len({va})", f"0 != len({va})", f"1 <= len({va})", f"len({va})", f"{va}"}
+    rej = [n for n in ast.walk(fn) if isinstance(n, ast.If) and va and u(n.test) in nonempty and any(isinstance(x, ast.Raise) and "TypeError" in u(x) for x in n.body)]
     ok = len(rej) == 1
     if ok:
         g = guards(rej[0], stop=fn)
         ok = any(u(t) == "self._subset_builds_match" and not pol for t, pol in g)
     ctx.check(ok, "R19g", f"{D}.build_antennas", "positional arguments are rejected when the subsets' signatures differ", "", key_detail="positional rejection")
+    # a keyword the detector consumes itself (`antenna_class`) is taken OUT of kwargs before kwargs are handed on: left in, it would reach
+    # every antenna constructor / sub-detector, none of which was meant to get it
+    kw = fn.args.kwarg.arg if fn.args.kwarg else None
+    taken = [n for n in ast.walk(fn) if isinstance(n, ast.If) and kw and u(n.test) == f"'antenna_class' in {kw}"]
+    ok = len(taken) == 1 and any((isinstance(x, ast.Call) and u(x.func) == f"{kw}.pop" and len(x.args) >= 1 and u(x.args[0]) == "'antenna_class'")
+                                 or (isinstance(x, ast.Delete) and any(u(t) == f"{kw}['antenna_class']" for t in x.targets))
+                                 for st in (taken[0].body if taken else []) for x in ast.walk(st))
+    ctx.check(ok, "R19g", f"{D}.build_antennas", "a keyword the detector consumes itself (antenna_class) is removed from kwargs before they are passed on",
+              "" if ok else ("no `if 'antenna_class' in kwargs` arm found" if len(taken) != 1 else u(taken[0])[:200]), key_detail="consumed keyword removed")
     both = [c for c in ast.walk(fn) if is_call(c, name="build_antennas", recv="sub")]
     ok = len(both) == 2 and all(any(u(t) == "hasattr(sub, 'build_antennas')" and pol for t, pol in guards(c, stop=fn)) for c in both)
     ctx.check(ok, "R19g", f"{D}.build_antennas", "only subsets that have build_antennas are asked to build", "", key_detail="hasattr guard")
@@ -415,6 +427,9 @@ SELFTEST = {
         {"name": "iadd without position test", "file": "pyrex/detector.py", "old": "            self.subsets.append(other)\n        self._test_positions()\n",
          "new": "            self.subsets.append(other)\n", "rule": ["R19b", "R19f"]},
         {"name": "clear drops the flag", "file": "pyrex/detector.py", "old": "            ant.clear(reset_noise=reset_noise)", "new": "            ant.clear()", "rule": "R19e"},
+        {"name": "antenna_class read from kwargs but left in them", "file": "pyrex/detector.py", "old": "                kwargs.pop(\"antenna_class\")\n", "new": "", "rule": "R19g"},
+        {"name": "positional rejection only beyond one argument", "file": "pyrex/detector.py", "old": "                if len(args)>0:\n                    raise TypeError(\"Detector build_antennas",
+         "new": "                if len(args)>1:\n                    raise TypeError(\"Detector build_antennas", "rule": "R19g"},
         {"name": "kwargs not filtered", "file": "pyrex/detector.py", "old": "                                      if key in keys}", "new": "                                      }", "rule": "R19g"},
     ],
     "benign": [
